@@ -53,6 +53,8 @@ type gbCase struct {
 	// StopRace: the owner of an in-process server calls GRPCServer.Stop at the moment the
 	// controller's Shutdown handler (hook grpc.shutdown) is about to do the same
 	StopRace bool `json:"stop_race,omitempty"`
+	// LeakCheck (in-process pairs): after client and server are closed, no goroutine of the two brokers may remain
+	LeakCheck bool `json:"leak_check,omitempty"`
 	// CloseRace: n goroutines close the host's protocol client at once; they are held at the entry of
 	// GRPCBroker.Close (hook grpc.broker.close) until all have arrived
 	CloseRace int `json:"close_race,omitempty"`
@@ -80,6 +82,10 @@ func (fakeT) Fatalf(format string, args ...interface{}) { panic(fmt.Sprintf(form
 func (fakeT) Fatal(args ...interface{})                 { panic(fmt.Sprint(args...)) }
 
 func runGBCase(c gbCase, bin, tmp string, t *testing.T) map[string]interface{} {
+	var goroutinesBefore map[string]string
+	if c.LeakCheck {
+		goroutinesBefore = pluginGoroutines()
+	}
 	out := map[string]interface{}{}
 	var stub *vp.Stub
 	var cp plugin.ClientProtocol
@@ -133,7 +139,8 @@ func runGBCase(c gbCase, bin, tmp string, t *testing.T) map[string]interface{} {
 		stub, cp = s, proto
 		cleanup = func() { p.Client.Kill() }
 	}
-	defer cleanup()
+	var cleanupOnce sync.Once
+	defer func() { cleanupOnce.Do(func() { cleanup() }) }()
 
 	// hook events (in-process pairs only see both sides; process pairs only the host side)
 	hold := c.Hold
@@ -414,6 +421,33 @@ func runGBCase(c gbCase, bin, tmp string, t *testing.T) map[string]interface{} {
 	}
 	sort.Strings(evn)
 	out["event_counts"] = evn
+	if c.LeakCheck && c.Pair == "inproc" {
+		// closing the client (and stopping the server) ends every goroutine the two brokers started -- the 5 s
+		// expiry handlers included, so this takes a few seconds
+		cleanupOnce.Do(func() { cleanup() })
+		n := -1
+		var sample []string
+		for i := 0; i < 75; i++ {
+			n = 0
+			sample = nil
+			for id, g := range pluginGoroutines() {
+				if _, was := goroutinesBefore[id]; !was {
+					n++
+					if len(sample) < 3 {
+						sample = append(sample, truncate(g, 500))
+					}
+				}
+			}
+			if n == 0 {
+				break
+			}
+			time.Sleep(100 * time.Millisecond)
+		}
+		out["leftover_goroutines"] = n
+		if n > 0 {
+			out["goroutine_sample"] = sample
+		}
+	}
 	return out
 }
 
